@@ -97,8 +97,16 @@ func cmdCheck(args []string) int {
 	var ov overlayFlag
 	fs.Var(&ov, "overlay", "abs-file=replacement-file (self-test variants)")
 	fs.Parse(args)
-	fn, ok := props.Registry[*prop]
-	if !ok {
+	var ids []string
+	if *prop == "all" {
+		// one load, every property (used by the refactor / seed sweeps)
+		for id := range props.Registry {
+			ids = append(ids, id)
+		}
+		sort.Strings(ids)
+	} else if _, ok := props.Registry[*prop]; ok {
+		ids = []string{*prop}
+	} else {
 		fmt.Fprintf(os.Stderr, "ERROR unknown property %q\n", *prop)
 		return 2
 	}
@@ -123,13 +131,36 @@ func cmdCheck(args []string) int {
 		fmt.Printf("ERROR property=%s positive controls: %v\n", *prop, err)
 		return 2
 	}
-	ctx := &an.Ctx{P: p, Property: *prop, Tier: *tier}
-	fn(ctx)
-	seed, _ := strconv.ParseInt(os.Getenv("VERIF_SEED"), 10, 64)
 	outDir := *verif
 	if *noEvidence {
 		outDir, _ = os.MkdirTemp("", "thunderlint-out")
 		defer os.RemoveAll(outDir)
+	}
+	worst := 0
+	for _, id := range ids {
+		rc := runProperty(p, id, *tier, *arch, outDir, findings, start)
+		if rc == 1 || (rc == 2 && worst == 0) {
+			worst = rc
+		}
+	}
+	return worst
+}
+
+func runProperty(p *an.Prog, id, tier, goarch, outDir string, findings []an.Finding, start time.Time) (rc int) {
+	prop, arch := &id, &goarch
+	seed, _ := strconv.ParseInt(os.Getenv("VERIF_SEED"), 10, 64)
+	ctx := &an.Ctx{P: p, Property: id, Tier: tier}
+	func() {
+		defer func() {
+			if r := recover(); r != nil {
+				fmt.Printf("ERROR property=%s checker stopped: %v\n", id, r)
+				rc = 2
+			}
+		}()
+		props.Registry[id](ctx)
+	}()
+	if rc != 0 {
+		return rc
 	}
 	extra := map[string]interface{}{"goarch": *arch, "positive_controls": props.SelfCheckCount}
 	if p.Inlined != nil {
@@ -161,7 +192,7 @@ func cmdCheck(args []string) int {
 		}
 	}
 	fmt.Printf("property=%s tier=%s obligations=%d hold=%d known=%d violations=%d undecided=%d packages=%d wall=%.1fs\n",
-		*prop, *tier, len(ctx.Obls), holds, res.Known, res.Violations, res.Undecided, len(p.Pkgs), time.Since(start).Seconds())
+		*prop, tier, len(ctx.Obls), holds, res.Known, res.Violations, res.Undecided, len(p.Pkgs), time.Since(start).Seconds())
 	if res.Violations > 0 {
 		return 1
 	}
